@@ -713,7 +713,15 @@ func (ex *Exec) funcsUsingSharedSpecs(P string) []string {
 	if P == "C11" {
 		classP = true // every send is a candidate for "blocking while holding a teardown lock"
 	}
-	if len(lockKeys) == 0 && !classP {
+	fieldP := map[string]bool{}
+	for k, fsp := range ex.specs.Fields {
+		for _, l := range fsp.Labels {
+			if l == P || strings.HasPrefix(l, P+".") {
+				fieldP["H."+k] = true
+			}
+		}
+	}
+	if len(lockKeys) == 0 && !classP && len(fieldP) == 0 {
 		return nil
 	}
 	var out []string
@@ -726,6 +734,12 @@ func (ex *Exec) funcsUsingSharedSpecs(P string) []string {
 		for _, b := range fn.Blocks {
 			for _, in := range b.Instrs {
 				switch x := in.(type) {
+				case *ssa.FieldAddr:
+					if len(fieldP) > 0 {
+						if r, p, ok := staticRoot(x); ok && fieldP["H."+r+"."+strings.TrimSuffix(p, ".")] {
+							hit = true
+						}
+					}
 				case *ssa.Send:
 					if classP {
 						hit = true
